@@ -147,6 +147,10 @@ class SpecDB:
                 if info is None:
                     raise Unbound("_i outside a for loop")
                 env[a] = st.env[info["cname"]]
+            elif a == "last_result":
+                if st.env.get("__last_result") is None:
+                    raise Unbound("last_result: no contract call happened yet")
+                env[a] = freeze(I, st.env["__last_result"], st.heap)
             elif a.endswith("__pre"):
                 base = a[:-5]
                 if st.env0 is None or base not in st.env0:
@@ -294,6 +298,7 @@ class SpecDB:
             e = dict(pre_env)
             e["result"] = freeze(I, r, s.heap)
             now_env["result"] = e["result"]
+            s.env["__last_result"] = r
             for name in c.ensures:
                 if name in c.opts.get("no_export", ()):
                     continue
